@@ -5,6 +5,7 @@ import Pcore.Proofs.Gid
 import Pcore.Proofs.GidFacts
 import Pcore.Proofs.TlsRefine
 import Pcore.Proofs.TlsGhost
+import Pcore.Proofs.TlsFuel
 import Pcore.Model.TlsFacts
 import Pcore.Generated.GidFacts
 /-!
@@ -63,8 +64,9 @@ Full statement / proved / missing
   configuration with every goroutine ended whose shared state (tables, context objects, loader entries, log, `estab`, counters) IS
   the big-step result; `C14_refines_reachable`, `C14_refines_log`.  So every big-step behaviour is a behaviour of the small-step
   model and the `C14s_*` invariants hold of big-step runs too (`C14_run_current_via_small`).                          **proved**
-  Full statement `C14_refines_full` (no fuel hypothesis); missing: that `fuelFor p` always suffices (`(run .now s p).oof = false`;
-  the driver prints `fuel` otherwise, which no correspondence run has ever shown).
+  Full statement `C14_refines_full` (no fuel hypothesis) = `C14_refines`: `C14_fuel_enough` proves that the fuel of the op always
+  suffices (`Proofs/TlsFuel.lean: exec_fuel, run_oof` — a chain of nested goroutine runs shares one budget, and no node of the
+  program is executed twice).                                                                                 **proved**
   LOADER ENTRIES under arbitrary interleavings (`Proofs/TlsGhost.lean`): every reachable configuration is decorated with two ghost
   maps the semantics never reads (`own l` = the goroutine loader `l` was allocated for, `par b` = the goroutine that started `b`;
   `C14s_ghost`); invariant `GInv` of every decorated reachable configuration (`ginv_step`): loaders on the chain of a context of
@@ -562,6 +564,14 @@ theorem C14_refines_partial (sched : List Nat) (p : Prog) (hok : (run .now sched
       (Cfg.steps steps (Cfg.init p)).w = strip (run .now sched p) ∧
       (∀ g ∈ (Cfg.steps steps (Cfg.init p)).gs, g.done = true) ∧ (run .now sched p).pending = [] :=
   run_refines sched p hok
+
+/-- the fuel the op gives (`fuelFor p = 2·size p + 8`) is enough for EVERY program and oracle: the driver never answers `fuel` -/
+theorem C14_fuel_enough (sched : List Nat) (p : Prog) : (run .now sched p).oof = false := run_oof sched p
+
+/-- **the refinement at full strength** -/
+theorem C14_refines : C14_refines_full := fun sched p =>
+  let ⟨steps, h1, h2, _⟩ := run_refines_all sched p
+  ⟨steps, h1, h2⟩
 
 /-- … hence the result of a big-step run is the shared state of a REACHABLE final configuration of the small-step model -/
 theorem C14_refines_reachable (sched : List Nat) (p : Prog) (hok : (run .now sched p).oof = false) :
